@@ -323,6 +323,7 @@ type retEdge struct {
 	vals []*Val
 	st   *State
 	nf   int
+	ord  int
 }
 
 type Frame struct {
@@ -464,6 +465,7 @@ func (v *Verifier) verifyFunction(fn *ssa.Function) (u *Unit) {
 		}
 	}()
 	u.next0 = Var("next0", IntS)
+	nextRoot = u.next0
 	st := &State{H: map[string]*Term{}, Next: u.next0}
 	u.facts = append(u.facts, Gt(u.next0, IntLit(0)))
 	u.facts = append(u.facts, v.axioms...)
@@ -473,11 +475,13 @@ func (v *Verifier) verifyFunction(fn *ssa.Function) (u *Unit) {
 		pv := namedVal(p.Type(), "p!"+p.Name())
 		fr.params = append(fr.params, pv)
 		u.facts = append(u.facts, validFacts(pv, u.next0, nil)...)
+		registerBelow(pv, u.next0)
 	}
 	for _, fv := range fn.FreeVars {
 		pv := namedVal(fv.Type(), "fv!"+fv.Name())
 		fr.fvs = append(fr.fvs, pv)
 		u.facts = append(u.facts, validFacts(pv, u.next0, nil)...)
+		registerBelow(pv, u.next0)
 	}
 	u.inputs = fr.params
 	u.top = fr
@@ -498,6 +502,7 @@ func (v *Verifier) verifyFunction(fn *ssa.Function) (u *Unit) {
 	}
 	// late-registered global axioms (globals discovered during execution) are appended at the end
 	fr.run(st)
+	fr.finish()
 	if len(v.axioms) > nAx {
 		extra := v.axioms[nAx:]
 		for _, o := range u.obls {
@@ -507,7 +512,6 @@ func (v *Verifier) verifyFunction(fn *ssa.Function) (u *Unit) {
 			o.Hyps = append(o.Hyps, extra...)
 		}
 	}
-	fr.finish()
 	return u
 }
 
@@ -838,8 +842,9 @@ func (fr *Frame) execCutLoop(l *Loop, ls *LoopSpec, entry []*Edge) {
 	nextEntry := st.Next
 	w := fr.loopWrites(l, env)
 	if w.allocs {
-		st.Next = Fresh("next", IntS)
-		u.assume(reach, Ge(st.Next, nextEntry))
+		var f *Term
+		st.Next, f = newNext(nextEntry)
+		u.facts = append(u.facts, f)
 	}
 	for kind := range w.kinds {
 		if w.unknown {
@@ -855,9 +860,8 @@ func (fr *Frame) execCutLoop(l *Loop, ls *LoopSpec, entry []*Edge) {
 	phiVals := map[*ssa.Phi]*Val{}
 	for _, p := range phis {
 		hv := freshVal(p.Type(), "phi!"+strings.ReplaceAll(p.Comment, " ", "_"))
-		for _, f := range validFacts(hv, st.Next, nil) {
-			u.assume(reach, f)
-		}
+		u.facts = append(u.facts, validFacts(hv, st.Next, nil)...)
+		registerBelow(hv, st.Next)
 		hv = fr.localVal(p, hv)
 		phiVals[p] = hv
 	}
@@ -978,44 +982,39 @@ func (fr *Frame) resolveLocal(name string, at *ssa.BasicBlock, env map[ssa.Value
 			}
 		}
 	}
-	// DebugRef-bound values: choose the one whose defining block dominates `at`, latest in dominance.
+	// The variable's value at `at`: the closest reference (DebugRef or φ named
+	// after the variable) in a block that dominates `at`.
 	var best ssa.Value
 	var bestBlk *ssa.BasicBlock
-	seenVals := map[ssa.Value]bool{}
+	consider := func(x ssa.Value, db *ssa.BasicBlock) {
+		if !(db == at || db.Dominates(at)) {
+			return
+		}
+		if _, ok := env[x]; !ok {
+			if _, isC := x.(*ssa.Const); !isC {
+				return
+			}
+		}
+		if best == nil || bestBlk == db || bestBlk.Dominates(db) {
+			best, bestBlk = x, db // later references in the same block win
+		}
+	}
 	for _, b := range fr.fn.Blocks {
 		for _, in := range b.Instrs {
-			d, ok := in.(*ssa.DebugRef)
-			if !ok || d.IsAddr {
-				continue
-			}
-			id, ok := d.Expr.(interface{ String() string })
-			_ = id
-			if identName(d) != want {
-				continue
-			}
-			if seenVals[d.X] {
-				continue
-			}
-			seenVals[d.X] = true
-			var db *ssa.BasicBlock
-			if ins, ok := d.X.(ssa.Instruction); ok {
-				db = ins.Block()
-			} else {
-				db = fr.fn.Blocks[0]
-			}
-			if _, isPhi := d.X.(*ssa.Phi); isPhi && db == at {
-				continue // φs of this head are bound explicitly
-			}
-			if !(db == at || db.Dominates(at)) {
-				continue
-			}
-			if _, ok := env[d.X]; !ok {
-				if _, isC := d.X.(*ssa.Const); !isC {
+			switch d := in.(type) {
+			case *ssa.DebugRef:
+				if d.IsAddr || identName(d) != want {
 					continue
 				}
-			}
-			if best == nil || bestBlk.Dominates(db) {
-				best, bestBlk = d.X, db
+				if p, isPhi := d.X.(*ssa.Phi); isPhi && p.Block() == at && b != at {
+					// a φ of this very head referenced from inside the loop: bound explicitly by the caller
+					continue
+				}
+				consider(d.X, b)
+			case *ssa.Phi:
+				if d.Comment == want && b != at {
+					consider(d, b)
+				}
 			}
 		}
 	}
@@ -1147,7 +1146,7 @@ func (fr *Frame) loopWrites(l *Loop, env map[ssa.Value]*Val) *loopWriteInfo {
 
 func contractResultFresh(c *Contract) bool {
 	for _, e := range c.Ensures {
-		if strings.Contains(e.Src, "fresh(result") {
+		if strings.Contains(e.Src, "fresh(result") || strings.Contains(e.Src, "unique(result") {
 			return true
 		}
 	}
@@ -1515,15 +1514,28 @@ func (fr *Frame) finish() {
 		}
 		env := fr.contractEnv(fr.params, r.vals, r.st, fr.entry)
 		for k, en := range c.Ensures {
+			if strings.Contains(en.Src, "unique(result") && i == 0 {
+				for _, b := range fr.fn.Blocks {
+					for _, in := range b.Instrs {
+						if rt, ok := in.(*ssa.Return); ok {
+							for _, rv := range rt.Results {
+								if _, isSlice := rv.Type().Underlying().(*types.Slice); isSlice && !u.v.uniqueDef(rv, 0) {
+									u.errs = append(u.errs, fmt.Sprintf("%s: unique(result) not established syntactically for %s in %s (contract.attach)", en.Where, rv.Name(), u.name))
+								}
+							}
+						}
+					}
+				}
+			}
 			t, err := env.evalBool(en.E)
 			if err != nil {
 				u.errs = append(u.errs, fmt.Sprintf("%s: ensures %s: %v (contract.attach)", en.Where, en.Src, err))
 				continue
 			}
-			name := fmt.Sprintf("%s#ensures.%d", u.name, k+1)
+			name := fmt.Sprintf("%s#ensures.%d@ret%d", u.name, k+1, r.ord)
 			u.counters[name]++
 			if n := u.counters[name]; n > 1 {
-				name = fmt.Sprintf("%s@ret%d", name, n)
+				name = fmt.Sprintf("%s@%d", name, n)
 			}
 			o := &Obligation{Name: name, Kind: "ensures", Fn: u.name, Hyps: r.hyps(u), Goal: Implies(r.cond, t), Pos: en.Where, Desc: en.Src, Inputs: u.inputs, Unit: u, Opaque: u.opaque, Fuel: u.fuel}
 			if o.Goal == True {
